@@ -245,6 +245,41 @@ def _shared(f):
     return build
 
 
+async def _groupby_keys_a(src, key=None):
+    async for k, _g in A.groupby(src, key=key):
+        yield k
+
+
+def _groupby_keys_s(src, key=None):
+    # __new__: bypass CrossHair's trampoline, which cannot take key=None
+    for k, _g in (itertools.groupby.__new__(itertools.groupby, src) if key is None else itertools.groupby(src, key)):
+        yield k
+
+
+def _none_if_small(x):
+    return None if x.key <= 0 else x.key > 1
+
+
+_reg(Tool("groupby_keys", (1, 1), lambda W, d, o: _groupby_keys_a(S(W, d, o, 0)), lambda W, d, o: _groupby_keys_s(S(W, d, o, 0))))
+_reg(Tool("groupby_keys_f", (1, 1), lambda W, d, o: _groupby_keys_a(S(W, d, o, 0), F(W, o, "key", _none_if_small)), lambda W, d, o: _groupby_keys_s(S(W, d, o, 0), F(W, o, "key", _none_if_small)), fn=True))
+
+
+async def _scoped_twice_a(src):
+    """scoped_iter over any iterable: the scoped iterator survives tools that close their input."""
+    async with A.scoped_iter(src) as it:
+        async for v in A.islice(it, 1):
+            yield v
+        async for v in it:
+            yield v
+
+
+def _scoped_twice_s(src):
+    it = builtins.iter(src)
+    yield from itertools.islice(it, 1)
+    yield from it
+
+
+_reg(Tool("scoped_twice", (1, 1), lambda W, d, o: _scoped_twice_a(S(W, d, o, 0)), lambda W, d, o: _scoped_twice_s(S(W, d, o, 0))))
 _reg(Tool("compress_shared", (1, 1), _shared(A.compress), _shared(itertools.compress)))
 _reg(Tool("zip_shared", (1, 1), _shared(A.zip), _shared(builtins.zip)))
 _reg(Tool("enumerate", (1, 1), lambda W, d, o: A.enumerate(S(W, d, o, 0), d.p[0]), lambda W, d, o: builtins.enumerate(S(W, d, o, 0), d.p[0]), ints=True, spec=lambda W, d, o: enumerate_spec(S(W, d, o, 0), d.p[0])))
